@@ -18,7 +18,7 @@ def _(self: "J1939_22", send_message: "func", job_thread_wakeup: "func", notify_
             len(self._cas) == 0, len(trace) == old(len(trace)))
 
 
-@unit("j1939.j1939_22:J1939_22._buffer_hash", props=["C02", "C10", "C06"])
+@unit("j1939.j1939_22:J1939_22._buffer_hash", replay="native", props=["C02", "C10", "C06"])
 def _(self: "J1939_22", session_num: "int", src_address: "int", dest_address: "int"):
     requires(-2**40 <= session_num < 2**40, -2**40 <= src_address < 2**40, -2**40 <= dest_address < 2**40)
     returns("int")
@@ -28,7 +28,7 @@ def _(self: "J1939_22", session_num: "int", src_address: "int", dest_address: "i
                                               and result % 256 == dest_address))
 
 
-@unit("j1939.j1939_22:J1939_22._buffer_hash_mpg", props=["C11"])
+@unit("j1939.j1939_22:J1939_22._buffer_hash_mpg", replay="native", props=["C11"])
 def _(self: "J1939_22", frame_format: "int", msg_counter: "int", src_address: "int", dest_address: "int"):
     requires(-2**40 <= frame_format < 2**40, 0 <= msg_counter, -2**40 <= src_address < 2**40, -2**40 <= dest_address < 2**40)
     returns("int")
@@ -39,7 +39,7 @@ def _(self: "J1939_22", frame_format: "int", msg_counter: "int", src_address: "i
                                           and (result // 256) % 256 == src_address and result % 256 == dest_address))
 
 
-@unit("j1939.j1939_22:J1939_22._buffer_unhash_mpg", props=["C11"])
+@unit("j1939.j1939_22:J1939_22._buffer_unhash_mpg", replay="native", props=["C11"])
 def _(self: "J1939_22", hash: "int"):
     requires(0 <= hash < 2**32)
     returns("tuple(int, int, int, int)")
